@@ -403,9 +403,7 @@ func (w *world) absorb(ci int, e emission) {
 // ---------------------------------------------------------------------------
 // one operation
 
-// naErr marks an operation that is not applicable in the current state (e.g. M has nothing to steal yet).
-type naErr struct{}
-
+// exec runs one operation; na = not applicable in the current state (e.g. M has nothing to steal yet).
 func (w *world) exec(op Op) (o *obsT, na bool) {
 	if op.Kind == kTick {
 		w.now += op.Tick
